@@ -24,7 +24,7 @@ from geometer.point import (
     join,
     meet,
 )
-from geometer.utils import det, matvec, orth
+from geometer.utils import det, is_multiple, matvec, orth
 
 if TYPE_CHECKING:
     from geometer.shapes import PolytopeTensor
@@ -51,8 +51,11 @@ def crossratio(
         NotCollinear: If four points are supplied that are not collinear.
 
     """
-    if a == b:
-        return np.ones(a.shape[: a.free_indices])
+    # the cross ratio is one wherever the first two arguments coincide (the quotient below is undefined there)
+    tensor_axes = tuple(range(a.free_indices - a.rank, 0))
+    equal = is_multiple(a.array, b.array, axis=tensor_axes, rtol=EQ_TOL_REL, atol=EQ_TOL_ABS)
+    if np.all(equal):
+        return np.ones(np.shape(equal))
 
     if (
         isinstance(a, LineTensor)
@@ -103,7 +106,7 @@ def crossratio(
     if a.dim > 2 or (from_point is None and a.dim == 2):
         if isinstance(a, PointTensor):
             # is_collinear only tests whether the points are coplanar in dimensions higher than two
-            l = join(a, b)
+            l = join(a, b, _check_dependence=False)
             if not (np.all(l.contains(c)) and np.all(l.contains(d))):
                 raise NotCollinear("The points are not collinear: " + str([a, b, c, d]))
 
@@ -128,7 +131,11 @@ def crossratio(
     bc = det(np.stack([*o, b, c], axis=-2))
 
     with np.errstate(divide="ignore", invalid="ignore"):
-        return ac * bd / (ad * bc)
+        result = ac * bd / (ad * bc)
+
+    if np.any(equal):
+        return np.where(equal, 1, result)
+    return result
 
 
 def harmonic_set(a: PointTensor, b: PointTensor, c: PointTensor) -> PointTensor:
